@@ -294,6 +294,7 @@ func cmdCheck(args []string) {
 	exitCode := 0
 	var engineErrs, boundNotes, vacuous, inconNotes []string
 	totPaths, totDec, totIncon := 0, int64(0), 0
+	totFbQ, totFbD := 0, 0
 	var totQ SolverStats
 	funcsAll := map[string]int{}
 	var samples []interface{}
@@ -344,6 +345,8 @@ func cmdCheck(args []string) {
 		totPaths += st.Paths
 		totDec += st.Decisions
 		totIncon += st.Inconclusive
+		totFbQ += st.FallbackQueries
+		totFbD += st.FallbackDecided
 		totQ.Sat += st.Queries.Sat
 		totQ.Unsat += st.Queries.Unsat
 		totQ.Unknown += st.Queries.Unknown
@@ -592,6 +595,7 @@ func cmdCheck(args []string) {
 		"harnesses":                     hdesc,
 		"functions_encoded":             fnames,
 		"solver_queries":                map[string]interface{}{"sat": totQ.Sat, "unsat": totQ.Unsat, "unknown": totQ.Unknown, "errors": totQ.Errors, "solver_seconds": totQ.Seconds},
+		"fallback_solver":               map[string]int{"queries_retried": totFbQ, "decided_by_fallback": totFbD},
 		"inconclusive":                  totIncon,
 		"inconclusive_notes":            inconNotes,
 		"out_of_bound":                  boundNotes,
